@@ -90,12 +90,12 @@ CLAIMS = {
          'Mixed: deductive (pyvc+z3, all n, all s,t) for retrieve_shortest_path: under the abstract contract FloydConsistent(L, SPL, hops, Pmat) of its producer (next hop is an existing '
          'connection, hop count decreases by one, SPL[i,j] = L[i,p] + SPL[p,j], hops = 0 exactly for i = j or unreachable) the returned sequence starts at s, ends at t, has hops[s,t]+1 nodes, '
          'moves along existing connections, its accumulated length is SPL[s,t], and it is empty exactly when there is no path of positive length. That distance_wei_floyd ESTABLISHES '
-         'FloydConsistent is proved as well for transform=None (contract distance_wei_floyd:paths: the invariant DIRECT / TRI / FIRST / NEXT of the hop-count and next-node bookkeeping is inductive on its own; with the distance contract it gives FloydConsistent, which is an obligation at the call of retrieve_shortest_path in the corollary path_from_floyd), under the assumption that np.isclose(a, b, rtol=1e-12, atol=0) is a == b (exact real arithmetic). For the log / inv transforms it is bounded only: the predicate is evaluated as a postcondition of the producer on all '
+         'FloydConsistent is proved as well for transform=None and transform=inv (contract distance_wei_floyd:paths and its :inv instance: the invariant DIRECT / TRI / FIRST / NEXT of the hop-count and next-node bookkeeping is inductive on its own; with the distance contract it gives FloydConsistent, which is an obligation at the call of retrieve_shortest_path in the corollary path_from_floyd), under the assumption that np.isclose(a, b, rtol=1e-12, atol=0) is a == b (exact real arithmetic). For the log transform it is bounded only: the predicate is evaluated as a postcondition of the producer on all '
          'directed graphs n<=3/4 and undirected n<=4/5 with lengths {0,1,2}, tie palettes, log/inv transforms. navigation_wu: ONE greedy navigation (the walk loop, arbitrary source and target, with or without max_hops) is proved as a fragment: the '
          'recorded node list is a walk from the source along existing connections; on success it ends at the target and the reported lengths are its hop count, summed connection length and summed distance; on failure all three are infinite. '
          'The enclosing loops, the PL matrices, the dict of paths and the success ratio are bounded only.',
-         PROOF_NOTE + ' The producer establishes FloydConsistent deductively for transform=None (np.isclose modelled as equality); for the other transforms it is checked by the bounded tier on the producer.',
-         'pyvc + z3: retrieve_shortest_path against the precondition FloydConsistent, distance_wei_floyd (transform=None) establishing it, the composition as a corollary over the two contracts, and the walk loop of navigation_wu (fragment); transforms of the producer and navigation bookkeeping checked at run time on exhaustive small scopes (bounded)', '5/C12'),
+         PROOF_NOTE + ' The producer establishes FloydConsistent deductively for transform None and inv (np.isclose modelled as equality); for the log transform it is checked by the bounded tier on the producer.',
+         'pyvc + z3: retrieve_shortest_path against the precondition FloydConsistent, distance_wei_floyd (transform None / inv) establishing it, the composition as a corollary over the two contracts, and the walk loop of navigation_wu (fragment); transforms of the producer and navigation bookkeeping checked at run time on exhaustive small scopes (bounded)', '5/C12'),
  'C09': ('proof',
          'numpy->Lean extraction of the REAL source of clustering_coef_bd/wd/wu and transitivity_bu/bd/wu/wd on every run, and stored Lean proofs (all n, all real matrices; cuberoot as an abstract '
          'cbrt with cbrt x ^ 3 = x) that each value equals its triple-enumeration definition: Fagiolo numerators (1/2) sum_{j,h} (a_ij+a_ji)(a_jh+a_hj)(a_hi+a_ih) and denominators K(K-1)-2 K_bi, Onnela '
